@@ -448,6 +448,13 @@ class HostDpll(Host):
         return True
 
 
+def _code(t):
+    try:
+        return semantics.binary_code(t)
+    except (ValueError, KeyError):
+        return None     # not a binary gate type at all
+
+
 def find_rule(ck: Checker, F, R='C06.FIND'):
     """find_circuit end to end on the smallest instances, with a model solver: every two-input function, one and two gates,
     two bases -- a circuit is returned exactly when one of that size exists in the basis, and it computes the function;
@@ -514,7 +521,7 @@ def find_rule(ck: Checker, F, R='C06.FIND'):
                     probs.append(f'the circuit returned for {"".join(str(int(v)) for v in row)} ({N} gate(s), {bname}) computes {table_of(c)}')
                 else:
                     used = {g.gate_type.var for l, g in c._gates.items() if g.gate_type.var != 'INPUT'}
-                    foreign = sorted(t for t in used if semantics.binary_code(t) not in cs)
+                    foreign = sorted(t for t in used if _code(t) not in cs)
                     if foreign or len(c._gates) - len(c._inputs) != N:
                         probs.append(f'the circuit returned for {"".join(str(int(v)) for v in row)} ({N} gate(s), {bname}) has gates {sorted(used)} / {len(c._gates) - len(c._inputs)} gates')
             if len(probs) > 3:
@@ -565,7 +572,7 @@ def find_rule(ck: Checker, F, R='C06.FIND'):
             try:
                 c = F.call(inst, 'find_circuit')
                 used = {g.gate_type.var for l, g in c._gates.items() if g.gate_type.var != 'INPUT'}
-                foreign = sorted(t for t in used if semantics.binary_code(t) not in set(codes[bname]))
+                foreign = sorted(t for t in used if _code(t) not in set(codes[bname]))
                 if not want:
                     probs.append(f'after a normalised search in {first} was set up, the search for {rs} with one gate in {bname} returns a circuit (gates {sorted(used)}) although none exists')
                 elif table_of(c) != [list(row)] or foreign:
